@@ -272,9 +272,18 @@ class SymInt:
                 raise Unsupported("float // or % with a symbolic int")
             return NotImplemented
         a, b = (ot, self.t) if swap else (self.t, ot)
-        if E().decide(z3.simplify(b == 0)):
+        e = E()
+        if e.decide(z3.simplify(b == 0)):
             raise ZeroDivisionError("integer division or modulo by zero")
-        return _mk(f(a, b))
+        # fork on the sign of the divisor: the solver then sees plain div / mod terms
+        if e.decide(z3.simplify(b > 0)):
+            return _mk(a / b if f is SymInt._floordiv_t else a % b)
+        # negative divisor: name -a and -b so that the solver's own div/mod axioms (stated for the
+        # pair it sees) apply directly
+        e.naux += 1
+        na, nb = z3.Int("aux_na_%d" % e.naux), z3.Int("aux_nb_%d" % e.naux)
+        e.solver.add(na == -a, nb == -b, nb > 0)
+        return _mk(na / nb if f is SymInt._floordiv_t else -(na % nb))
 
     def __floordiv__(self, o): return self._divlike(o, False, self._floordiv_t)
     def __rfloordiv__(self, o): return self._divlike(o, True, self._floordiv_t)
